@@ -811,6 +811,219 @@ def run_q2d_high(case, seed, R):
 
 
 # ---------------------------------------------------------------------------------------------
+# threshold sizes (blocked / chunked evaluation paths, fast paths above an element count); NOT closed over the data dimension
+#
+# Every value-returning entry point is evaluated on arrays whose element count is just above a power of two and not a multiple of
+# it (2^k + 1 and 2^k + 2^(k-1) + 3, k = 7..16), on 2-D grids of such sizes and on one grid of more than 2^20 elements.  The
+# coordinates are the property's exact-reference points repeated cyclically along the flattened (C-order) index with an ODD period
+# (11 / 9 / 7: never a divisor of a block length), so the exact-rational reference at the period points, tiled, judges EVERY element
+# -- the trailing elements of the last partial block included -- and a result assembled from mis-placed blocks is seen as well.
+
+SIZE_1D = [[2 ** k + 1] for k in range(7, 17)] + [[2 ** k + 2 ** (k - 1) + 3] for k in range(7, 17)]
+SIZE_2D = [[129, 3], [150, 150], [181, 182], [300, 300], [257, 1030]]
+SIZE_HUGE = [[1025, 1027]]                                   # 1 052 675 > 2^20 elements: a camera-frame sized grid
+SIZE_32 = [[2 ** 16 + 1], [300, 300]]                        # float32 coordinates
+SIZE_MORE_1D = [[2 ** k - 1] for k in range(7, 19)] + [[2 ** k] for k in range(7, 19)] + [[3 * 2 ** k + 5] for k in range(7, 18)] + \
+    [[2 ** 17 + 1], [2 ** 18 + 2 ** 17 + 3]]
+SIZE_MORE_2D = [[128, 128], [256, 256], [512, 512], [480, 640], [513, 511], [3, 129], [1030, 257], [2, 3, 11000]]
+SIZE_MORE_HUGE = [[1200, 1600]]
+SIZE_NMAX = 9
+SIZE_SCALAR_ORDERS = [3, 8]
+SIZE_SEQ_LISTS = [[0, 1, 2, 3], [2, 5, 9]]
+
+SIZE_ONE = {
+    # family: (shape-parameter settings, exact ref maker, point-set kind)
+    'jacobi': ([[2.5, 7.25], [-0.5, 0.5]], lambda p: (lambda n, x: rp.jacobi(n, F(p[0]), F(p[1]), x)), 'I'),
+    'legendre': ([[]], lambda p: rp.legendre, 'I'),
+    'cheby1': ([[]], lambda p: rp.cheby1, 'I'),
+    'cheby2': ([[]], lambda p: rp.cheby2, 'I'),
+    'cheby3': ([[]], lambda p: rp.cheby3, 'I'),
+    'cheby4': ([[]], lambda p: rp.cheby4, 'I'),
+    'hermite_H': ([[]], lambda p: rp.hermite_H, 'H'),
+    'hermite_He': ([[]], lambda p: rp.hermite_He, 'H'),
+    'laguerre': ([[0.5]], lambda p: (lambda n, x: rp.laguerre(n, F(p[0]), x)), 'L'),
+    'dickson1': ([[0.5]], lambda p: (lambda n, x: rp.dickson1(n, F(p[0]), x)), 'D'),
+    'dickson2': ([[0.5]], lambda p: (lambda n, x: rp.dickson2(n, F(p[0]), x)), 'D'),
+    'Qcon': ([[]], lambda p: rp.qcon, 'U'),
+    'Qbfs': ([[]], None, 'U'),
+}
+SIZE_TWO = ['zernike_nm', 'zernike_nm_seq', 'Q2d', 'Q2d_seq', 'xy', 'xy_seq', 'hopkins', 'jacobi.weight']
+SIZE_FNS = [f + s for f in SIZE_ONE for s in ('', '_seq')] + SIZE_TWO
+
+
+def _trig(m, T):
+    return np.array([math.cos(m * t) if m >= 0 else math.sin(-m * t) for t in T])
+
+
+def _q_radial_table(am, N, fr):
+    """values and running-max magnitudes (orders 0..N) of the radial factor of Qbfs (am = 0) / Q2d (am >= 1) at the exact points fr."""
+    if am == 0:
+        cs, h = rp.qbfs_table(N)
+        pre = np.array([float(x * x * (1 - x * x)) for x in fr])
+    else:
+        cs, h = rp.q2d_table(am, N)
+        pre = np.array([float(x ** am) for x in fr])
+    q = np.array([[float(rp.horner(cs[k][:k + 1], x * x)) for x in fr] for k in range(N + 1)]) / np.sqrt([float(v) for v in h])[:, None]
+    return pre * q, np.maximum.accumulate(pre * np.maximum(1.0, np.abs(q)), axis=0)
+
+
+def _size_probes(fn, seed, f32_):
+    """The probe calls of entry point `fn`: dicts f, pre (leading arguments), kw, cols (one list of period points per coordinate
+    argument), seq (result is a sequence), depth / vals / cond (per returned item, over the period points), K, what, grid."""
+    per = 9 if f32_ else 11
+    out = []
+
+    def probe(f, pre, cols, seq, depth, vals, cond, what, kw=None, K=K_DEFAULT, grid=False):
+        out.append({'f': f, 'pre': tuple(pre), 'kw': kw or {}, 'cols': cols, 'seq': seq, 'depth': list(depth), 'vals': list(vals),
+                    'cond': list(cond), 'K': K, 'what': what, 'grid': grid})
+
+    base = fn[:-4] if fn.endswith('_seq') else fn
+    if base in SIZE_ONE:
+        params, mk_ref, kind = SIZE_ONE[base]
+        if f32_:
+            per = min(per, N32[kind] - 1)          # float32-exact points only, odd period (9 or 7)
+        P = pts(kind, seed)[:per]
+        fr = [rp.frac(v) for v in P]
+        f = getattr(pp, fn)
+        for p in params:
+            if base == 'Qbfs':
+                T, run = _q_radial_table(0, SIZE_NMAX, fr)
+            else:
+                ref = mk_ref(p)
+                T = np.array([[float(ref(n, x)) for x in fr] for n in range(SIZE_NMAX + 1)])
+                run = np.maximum.accumulate(np.abs(T), axis=0)
+            if fn.endswith('_seq'):
+                for ns in SIZE_SEQ_LISTS:
+                    probe(f, (list(ns), *p), [P], True, ns, [T[n] for n in ns], [run[n] for n in ns], f'{fn}({ns}{", " + str(p) if p else ""})')
+            else:
+                for n in SIZE_SCALAR_ORDERS:
+                    probe(f, (n, *p), [P], False, [n], [T[n]], [run[n]], f'{fn}({n}{", " + str(p) if p else ""})')
+        return out
+    U, Tt = pts('U', seed)[:per], PTS_T[:per]
+    fu = [rp.frac(v) for v in U]
+    if fn in ('zernike_nm', 'zernike_nm_seq'):
+        def zern(n, m, norm):
+            am = abs(m)
+            rad = {k: np.array([float(rp.zernike_radial(k, am, x)) for x in fu]) * (math.sqrt(rp.zernike_norm2(k, m)) if norm else 1.0)
+                   for k in range(am, n + 1, 2)}
+            return (n - am) // 2, rad[n] * _trig(m, Tt), np.max([np.abs(v) for v in rad.values()], axis=0)
+        if fn == 'zernike_nm':
+            for n, m, norm in ((4, 0, True), (5, -3, False)):
+                d, v, c = zern(n, m, norm)
+                probe(pp.zernike_nm, (n, m), [U, Tt], False, [d], [v], [c], f'zernike_nm({n},{m},norm={norm})', kw={'norm': norm})
+        else:
+            for nms, norm in (([(2, 0), (3, 1), (3, -3), (6, 2), (4, 0)], True), ([(1, -1), (5, 1)], False)):
+                z = [zern(n, m, norm) for n, m in nms]
+                probe(pp.zernike_nm_seq, (list(nms),), [U, Tt], True, [a[0] for a in z], [a[1] for a in z], [a[2] for a in z],
+                      f'zernike_nm_seq({nms},norm={norm})', kw={'norm': norm})
+    elif fn in ('Q2d', 'Q2d_seq'):
+        tabs = {}
+
+        def q2(n, m):
+            am = abs(m)
+            if am not in tabs:
+                tabs[am] = _q_radial_table(am, 3, fu)
+            return n, tabs[am][0][n] * _trig(m, Tt), tabs[am][1][n]
+        if fn == 'Q2d':
+            for n, m in ((3, 0), (2, -2)):
+                d, v, c = q2(n, m)
+                probe(pp.Q2d, (n, m), [U, Tt], False, [d], [v], [c], f'Q2d({n},{m})')
+        else:
+            for nms in ([(0, 0), (3, 0), (1, 2), (2, -1), (2, 2)], [(1, 1)]):
+                z = [q2(n, m) for n, m in nms]
+                probe(pp.Q2d_seq, (list(nms),), [U, Tt], True, [a[0] for a in z], [a[1] for a in z], [a[2] for a in z], f'Q2d_seq({nms})')
+    elif fn in ('xy', 'xy_seq'):
+        X, Y = pts('X', seed)[:per], pts('Y', seed)[:per]
+        fx, fy = [rp.frac(v) for v in X], [rp.frac(v) for v in Y]
+
+        def scattered(m, n):
+            return np.array([float(x ** m * y ** n) for x, y in zip(fx, fy)])
+
+        def table(m, n):      # [iy, ix]
+            return np.array([[float(x ** m * y ** n) for x in fx] for y in fy])
+        for grid, cg in ((False, False), (True, True), (True, False)):
+            tv = table if grid else scattered
+            tag = f'cartesian_grid={cg}' + (' on a meshgrid' if grid else ' on scattered points')
+            if fn == 'xy':
+                m, n = 2, 3
+                probe(pp.xy, (m, n), [X, Y], False, [0], [tv(m, n)], [np.abs(tv(m, n))], f'xy({m},{n},{tag})', kw={'cartesian_grid': cg},
+                      K=8 * (m + n + 1), grid=grid)
+            else:
+                mns = [(0, 0), (1, 0), (2, 3), (0, 2)]
+                probe(pp.xy_seq, (list(mns),), [X, Y], True, [0] * len(mns), [tv(m, n) for m, n in mns], [np.abs(tv(m, n)) for m, n in mns],
+                      f'xy_seq({mns},{tag})', kw={'cartesian_grid': cg}, K=[8 * (m + n + 1) for m, n in mns], grid=grid)
+    elif fn == 'hopkins':
+        H = pts('HF', seed)[:per]
+        fh = [rp.frac(v) for v in H]
+        for a, b, c in ((2, 3, 1), (-1, 2, 2)):
+            rad = np.array([float(r ** b * h ** c) for r, h in zip(fu, fh)])
+            probe(pp.hopkins, (a, b, c), [U, Tt, H], False, [0], [rad * _trig(a, Tt)], [np.abs(rad)], f'hopkins({a},{b},{c})', K=8 * (b + c + 2))
+    elif fn == 'jacobi.weight':
+        import importlib
+        jm = importlib.import_module('prysm.polynomials.jacobi')
+        P = pts('I', seed)[2:2 + per - 2]                 # interior points only (odd period 9 / 7)
+        for a, b in ((2.5, 7.25), (-0.5, 0.5)):
+            w = np.array([float(1 - rp.frac(v)) ** a * float(1 + rp.frac(v)) ** b for v in P])
+            probe(jm.weight, (a, b), [P], False, [0], [w], [np.abs(w) * (1 + abs(a) + abs(b))], f'jacobi.weight({a},{b})', K=32)
+    else:
+        raise ValueError(fn)
+    return out
+
+
+def run_size(case, seed, R):
+    fn, shape, dt = case['fn'], tuple(case['shape']), case['dtype']
+    f32_ = dt == 'f32'
+    eps, npdt = (EPS32, np.float32) if f32_ else (EPS64, np.float64)
+    size = int(np.prod(shape))
+    dim = 'huge' if size > 2 ** 20 else f'{len(shape)}d'
+    sig = f'{fn}:size:{dim}:{dt}'
+    probes = _size_probes(fn, seed, f32_)
+    if case['settings'] == 'first':
+        probes = [p for p in probes if not p['grid']][:1]
+    for pr in probes:
+        per = len(pr['cols'][0])
+        if pr['grid']:
+            if len(shape) != 2:
+                continue
+            iy, ix = np.arange(shape[0]) % per, np.arange(shape[1]) % per
+            xv, yv = np.array(pr['cols'][0], dtype=npdt), np.array(pr['cols'][1], dtype=npdt)
+            arrs = [np.ascontiguousarray(np.broadcast_to(xv[ix][None, :], shape)), np.ascontiguousarray(np.broadcast_to(yv[iy][:, None], shape))]
+            gather = lambda v: np.asarray(v)[iy[:, None], ix[None, :]]      # noqa
+        else:
+            idx = np.arange(size) % per
+            arrs = [np.array(c, dtype=npdt)[idx].reshape(shape) for c in pr['cols']]
+            gather = lambda v: np.asarray(v)[idx].reshape(shape)            # noqa
+        what = f'{pr["what"]} on a {"x".join(map(str, shape))} {dt} array'
+        out = R.call(pr['f'], *pr['pre'], *arrs, sig=sig + ':exception', hygiene=dim != 'huge', **pr['kw'])
+        if pr['seq']:
+            items = _seq_items(R, out, len(pr['depth']), None, sig, what)
+            if items is None:
+                continue
+        else:
+            items = [out]
+        for i, n in enumerate(pr['depth']):
+            got = items[i]
+            if pr['grid'] and got is not FAILED:
+                try:    # a separable result may come back un-broadcast (row x column); broadcasting is part of the documented contract
+                    got = np.broadcast_to(np.asarray(got), shape) if np.ndim(got) == len(shape) else got
+                except Exception:   # noqa
+                    pass
+            K = pr['K'][i] if isinstance(pr['K'], list) else pr['K']
+            _close(R, got, gather(pr['vals'][i]), gather(pr['cond'][i]), n, eps, K, sig, f'{what}, entry {i}' if pr['seq'] else what)
+    R.nontrivial()
+    R.outcome(f'size:{dim}')
+
+
+def size_cases(tier):
+    shapes = [(s, 'f64', 'all' if int(np.prod(s)) <= 2 ** 17 else 'first') for s in SIZE_1D + SIZE_2D] + [(s, 'f32', 'all') for s in SIZE_32] + [(s, 'f64', 'first') for s in SIZE_HUGE]
+    if tier != 'quick':
+        shapes += [(s, 'f64', 'all') for s in SIZE_MORE_1D + SIZE_MORE_2D] + [(s, 'f32', 'all') for s in SIZE_1D + SIZE_2D if s not in SIZE_32] + \
+            [(s, 'f64', 'first') for s in SIZE_MORE_HUGE] + [(s, 'f32', 'first') for s in SIZE_HUGE]
+    shapes.sort(key=lambda t: (int(np.prod(t[0])), len(t[0]), t[1]))
+    return [{'fn': fn, 'shape': list(s), 'dtype': dt, 'settings': st} for s, dt, st in shapes for fn in SIZE_FNS]
+
+
+# ---------------------------------------------------------------------------------------------
 # the package's public weight / norm helpers
 
 def run_weight(case, seed, R):
@@ -1140,6 +1353,15 @@ def plan(tier, seed):
                   f'threshold alphabet of orders {HI_ORDERS} (gamma / factorial overflow at 171, typical large orders) for Legendre, Chebyshev T/U/V/W and Jacobi {HI_JAC} at '
                   f'{len(HI_PTS)} few-bit dyadic points incl. both end points, as 1-D array and scalars; oracle: exact-rational explicit sums (Chebyshev additionally self-checked against the '
                   'trigonometric definitions); scale = running max over k <= n of |p_k(x)|.  This unit is a threshold alphabet, NOT closed over the order dimension', reset=reset_poly_caches),
+        ScopeUnit('threshold_sizes', size_cases(tier), run_size,
+                  f'threshold alphabet of array sizes for EVERY value-returning entry point ({len(SIZE_FNS)}: the 13 one-coordinate families and their *_seq forms, zernike_nm(_seq), '
+                  f'Q2d(_seq), xy(_seq) scattered and on a genuine meshgrid with cartesian_grid True/False, hopkins, jacobi.weight): 1-D lengths 2^k+1 and 2^k+2^(k-1)+3 for k = 7..16, '
+                  f'2-D shapes {SIZE_2D}, one grid of more than 2^20 elements {SIZE_HUGE} (above 2^17 elements: first setting only), float32 coordinates at {SIZE_32}'
+                  + ('' if tier == 'quick' else f'; thorough adds 2^k-1, 2^k (k = 7..18), 3*2^k+5, {SIZE_MORE_2D}, {SIZE_MORE_HUGE} and float32 at every size') +
+                  f'; per entry point two settings (orders {SIZE_SCALAR_ORDERS} / order lists {SIZE_SEQ_LISTS}; Jacobi with two (alpha,beta)); the coordinates are the exact-reference '
+                  'points repeated cyclically along the C-order index with an odd period (11; 9 / 7 for float32), so the exact-rational definition judges EVERY element (the last partial '
+                  'block included) with the pointwise tolerance policy; the arrays are explicit R.call arguments, so the hygiene variants (strided, Fortran, reused buffer, repeat) run at '
+                  'every size up to 257x1030 (the > 2^20 grid is judged by the reference only).  This unit is a threshold alphabet, NOT closed over the data / size dimension', reset=reset_poly_caches, chunk=1),
         ScopeUnit('q2d_high_m', q2h_cases, run_q2d_high,
                   f'threshold alphabet of azimuthal orders |m| in {HI_M} (int64 overflow of the m-dependent seeds at 17/18) x n in [0..5], both signs: Q2d pointwise against the exact '
                   'rational (arbitrary-precision integer) Gram-Schmidt reference whose n=0 member is the closed form Q_0^m = 1/(2 sqrt(F_0^m)), radial structure, gradient Gram matrix, and Q2d_seq; '
